@@ -389,7 +389,16 @@ impl<'a> Socket<'a> {
         let ip_version = self.ip_version;
         let _checksum_caps = &cx.checksum_caps();
         let res = self.tx_buffer.dequeue_with(|&mut (), buffer| {
-            match IpVersion::of_packet(buffer) {
+            let packet_version = IpVersion::of_packet(buffer);
+            if let (Some(bound), Ok(actual)) = (ip_version, packet_version)
+                && bound != actual
+            {
+                // As documented on `send`: a packet not matching the IP version the
+                // socket is bound to is silently dropped.
+                net_trace!("raw: sent packet with wrong ip version, dropping.");
+                return Ok(());
+            }
+            match packet_version {
                 #[cfg(feature = "proto-ipv4")]
                 Ok(IpVersion::Ipv4) => {
                     let mut packet = match Ipv4Packet::new_checked(buffer) {
